@@ -25,6 +25,19 @@ fn digest2(v: u32, msg: &[u8], split: usize) -> Vec<u8> {
     macro_rules! go {
         ($t:ident) => {{
             let mut h = $t::default();
+            // half of the cases reuse an object that has already produced a digest in place
+            // (FixedOutput::finalize_fixed_reset) or absorbed data and was reset
+            match (msg.len() + split) % 4 {
+                2 => {
+                    digest::Update::update(&mut h, &msg[..msg.len().min(5)]);
+                    let _ = digest::FixedOutput::finalize_fixed_reset(&mut h);
+                }
+                3 => {
+                    digest::Update::update(&mut h, &[0x5au8; 70][..]);
+                    digest::Reset::reset(&mut h);
+                }
+                _ => {}
+            }
             h.update(&msg[..split]);
             h.update(&msg[split..]);
             h.finalize().to_vec()
